@@ -66,6 +66,23 @@ func verifURLFields(wh *v1alpha1.Webhook) verifURLShape {
 	return s
 }
 
+// verifSeconds picks a representative number of seconds (the executor has no
+// symbolic multiplication): 0, a positive value, and in the thorough tier a
+// negative one.
+func verifSeconds(tag string, positive int32) int32 {
+	n := 2
+	if rt.Tier() == 1 {
+		n = 3
+	}
+	switch rt.Choice(tag, n) {
+	case 1:
+		return positive
+	case 2:
+		return -1
+	}
+	return 0
+}
+
 // verifExpectURL is the rule of the documentation: a full url overrides
 // everything; otherwise service (with name and namespace) and path are
 // required; port defaults to 80, protocol to http.
@@ -164,10 +181,8 @@ func VerifC20a_Timeout() {
 // space.
 func VerifC20a_Constructor() {
 	ctrlName := rt.String("controller-name")
-	ctrlType := common.CompositeController
-	if rt.Bool("decorator") {
-		ctrlType = common.DecoratorController
-	}
+	ctrlType := common.ControllerType(rt.String("controller-type"))
+	thorough := rt.Tier() == 1
 	hookType := common.SyncHook
 
 	var hook *v1alpha1.Hook
@@ -179,7 +194,7 @@ func VerifC20a_Constructor() {
 	var modeVal v1alpha1.ResponseUnmarshallMode
 	if rt.Bool("has-hook") {
 		hook = &v1alpha1.Hook{}
-		if rt.Bool("has-version") {
+		if thorough && rt.Bool("has-version") {
 			v := v1alpha1.HookVersion(rt.String("version"))
 			hook.Version = &v
 		}
@@ -195,16 +210,17 @@ func VerifC20a_Constructor() {
 					wh.Etag.Enabled = &enabled
 				}
 				if hasCTS = rt.Bool("has-cache-timeout"); hasCTS {
-					v := rt.Int32("cache-timeout-s")
+					v := verifSeconds("cache-timeout-s", 300)
 					wh.Etag.CacheTimeoutSeconds = &v
 				}
 				if hasCCS = rt.Bool("has-cache-cleanup"); hasCCS {
-					v := rt.Int32("cache-cleanup-s")
+					v := verifSeconds("cache-cleanup-s", 30)
 					wh.Etag.CacheCleanupSeconds = &v
 				}
 			}
 			if hasMode = rt.Bool("has-mode"); hasMode {
-				modeVal = v1alpha1.ResponseUnmarshallMode(rt.OneOf(rt.String("mode"), "loose", "strict"))
+				// any text: nothing at construction time depends on its value
+				modeVal = v1alpha1.ResponseUnmarshallMode(rt.String("mode"))
 				wh.ResponseUnmarshallMode = &modeVal
 			}
 		}
